@@ -11,6 +11,7 @@ PROP = 'C06'
 LEAN_TARGETS = ['Props.C06']
 REQUIRED_THEOREMS = ['Props.C06.conv_out_size', 'Props.C06.conv1d_is_cross_correlation', 'Props.C06.same_preserves_length',
                      'Props.C06.pool_default_stride', 'Props.C06.maxpool_padding_never_wins', 'Props.C06.avgpool_counts_padding', 'Props.C06.conv2d_is_cross_correlation', 'Props.C06.conv2d_accepts_iff', 'Props.C06.avgpool2d_counts_padding', 'Props.C06.maxpool2d_padding_never_wins', 'Props.C06.softmax_spec', 'Props.C06.log_softmax_spec', 'Props.C06.cross_entropy_spec', 'Props.C06.mse_spec']
+REQUIRED_THEOREMS += ['Props.C06.' + t for t in ['src_forward_relu', 'src_forward_relu_is_max', 'src_forward_leaky_relu', 'src_forward_selu', 'src_forward_selu_closed', 'src_forward_tanh', 'src_forward_sigmoid', 'src_forward_mse', 'src_forward_bce']]   # ties to cpu_ops.py as read on this run
 RULE = ('forward values of every nn op over the C02 generators (activations, softmax family along every dim, losses, linear, '
         'conv1d/2d and max/avg pooling over a geometry grid, unfold/fold, batch_norm in all modes) with ~8 % malformed '
         'configurations; loss modules under reduction mean / sum / none (value and shape); geometry layers constructed with int '
@@ -362,6 +363,12 @@ def mfrep_case(rng, long=False):
     return {'kind': 'mfrep', 'op': 'BatchNorm1d' + ('' if target == bn else ' in Sequential'), 'lines': L, 'malformed': False, 'K': K, 'eps': eps, 'pre': pre, 'track': track}
 
 
+
+
+def extract():
+    """the forward formulas of the activations / elementwise losses are re-read from cpu_ops.py (Generated/KernelFormulas.lean); the src_forward_* theorems are re-checked by the build"""
+    import formulas
+    return formulas.write()[0]
 
 def cases(rng, tier):
     out = []
